@@ -683,6 +683,22 @@ void obs_rv(const Opm::RestartValue& rv, const cJSON* q, JW& o) {
     o.end_obj();
 }
 
+// The object x is valid by construction, so an exception out of pack/unpack/compare is itself an observation
+// (reported as "roundtrip_exc"), not a rejection of the input.
+template <class T, class Make, class Obs>
+void guarded_roundtrip(const char* label, const T& x, Make&& make_y, Obs&& obs, bool full, JW& out) {
+    JW sub;
+    sub.obj();
+    try {
+        roundtrip(label, x, make_y, obs, full, sub);
+    } catch (const std::exception& e) {
+        out.kv_s("roundtrip_exc", e.what());
+        return;
+    }
+    sub.end_obj();
+    out.key("result").raw(sub.s);
+}
+
 } // namespace
 
 // {cmd:pack_dyn, cls: SummaryState|UDQState|ActionState|WellTestState|RestartValue,
@@ -701,16 +717,16 @@ PROBE_CMD(pack_dyn) {
                                       : Opm::SummaryState(Opm::TimeService::from_time_t((std::time_t)jint(ctor, "start")), jdouble(ctor, "undef"));
         if (!testobj) apply_smry(x, ops);
         out.kv_i("entries", x.size());
-        roundtrip("SummaryState", x, [] { return Opm::SummaryState(); },
+        guarded_roundtrip("SummaryState", x, [] { return Opm::SummaryState(); },
                   [&](const Opm::SummaryState& s, JW& o) { obs_smry(s, q, o); }, full, out);
     } else if (cls == "UDQState") {
         Opm::UDQState x = testobj ? Opm::UDQState::serializationTestObject() : Opm::UDQState(jdouble(ctor, "undef"));
         if (!testobj) apply_udq(x, ops);
-        roundtrip("UDQState", x, [] { return Opm::UDQState(); }, [&](const Opm::UDQState& s, JW& o) { obs_udq(s, q, o); }, full, out);
+        guarded_roundtrip("UDQState", x, [] { return Opm::UDQState(); }, [&](const Opm::UDQState& s, JW& o) { obs_udq(s, q, o); }, full, out);
     } else if (cls == "ActionState") {
         Opm::Action::State x = testobj ? Opm::Action::State::serializationTestObject() : Opm::Action::State();
         if (!testobj) apply_action(x, ops);
-        roundtrip("ActionState", x, [] { return Opm::Action::State(); },
+        guarded_roundtrip("ActionState", x, [] { return Opm::Action::State(); },
                   [&](const Opm::Action::State& s, JW& o) { obs_action(s, q, o); }, full, out);
     } else if (cls == "WellTestState") {
         WTestCase x;
@@ -718,14 +734,14 @@ PROBE_CMD(pack_dyn) {
             x.st = Opm::WellTestState::serializationTestObject();
             x.config = Opm::WellTestConfig::serializationTestObject();
         } else apply_wtest(x, ops);
-        roundtrip("WellTestState", x.st, [] { return Opm::WellTestState(); },
+        guarded_roundtrip("WellTestState", x.st, [] { return Opm::WellTestState(); },
                   [&](const Opm::WellTestState& s, JW& o) { obs_wtest(s, x.config, q, o); }, full, out);
     } else if (cls == "RestartValue") {
         Opm::RestartValue x = testobj ? Opm::RestartValue::serializationTestObject()
                                       : Opm::RestartValue(data::Solution(jbool(ctor, "si", true)), data::Wells{},
                                                           data::GroupAndNetworkValues{}, data::Aquifers{});
         if (!testobj) apply_rv(x, ops);
-        roundtrip("RestartValue", x, [] { return Opm::RestartValue(); },
+        guarded_roundtrip("RestartValue", x, [] { return Opm::RestartValue(); },
                   [&](const Opm::RestartValue& s, JW& o) { obs_rv(s, q, o); }, full, out);
     } else throw BadRequest("pack_dyn: unknown class " + cls);
 }
